@@ -1340,7 +1340,8 @@ def getattr(I, obj, name):
         return str_method(I, obj, name)
     if isinstance(obj, (SV, int, float, bool)):
         if name == '__abs__':
-            return Builtin('abs', lambda I_, a, k: b_abs(I_, [obj], {}))
+            from .lib import b_abs as _b_abs
+            return Builtin('abs', lambda I_, a, k: _b_abs(I_, [obj], {}))
         if name in ('real',):
             return obj
         if name == 'copy':
